@@ -387,6 +387,9 @@ class kFlowDecomp(pathmodel.AbstractPathModelDAG):
 
         start_time = time.perf_counter()
         (paths, weights) = self.G.decompose_using_max_bottleneck(self.flow_attr)
+        if self.weight_type == float:
+            # the bottleneck values have the type of the input data; the caller asked for float weights
+            weights = [float(w) for w in weights]
 
         # Check if the greedy decomposition satisfies the subpath constraints
         if self.subpath_constraints:
@@ -410,7 +413,7 @@ class kFlowDecomp(pathmodel.AbstractPathModelDAG):
             # If paths contains strictly less than self.k paths, 
             # then we add arbitrary paths (i.e. we repeat the first path) with 0 weights to reach self.k paths.
             paths += [paths[0] for _ in range(self.k - len(paths))]
-            weights += [0 for _ in range(self.k - len(weights))]
+            weights += [self.weight_type(0) for _ in range(self.k - len(weights))]
             # self._solution = {
             #     "paths": paths,
             #     "weights": weights,
